@@ -51,9 +51,10 @@ def _commitment(ctx, spec, attr, hashname, extra_exempt=None):
     gs = find_guards(mod, fn, _hash_guard(fn, attr, hashname))
     absent = _absent_edges(fn, attr)
     # cut: remove guard pass edges and "absent" edges; is a return still reachable?
-    removed = {(g.node.id, g.pass_label) for g in gs} | set(absent) | set(extra_exempt(fn) if extra_exempt else ())
+    removed = {(g.node.id, g.pass_label) for g in gs} | set(absent)
+    forbid = extra_exempt(fn) if extra_exempt else ()
     rets = [n.id for n in cfg.returns()]
-    r, p = reach_ps(cfg, [cfg.entry], removed=removed, targets=rets)
+    r, p = reach_ps(cfg, [cfg.entry], removed=removed, targets=rets, forbid=forbid)
     if r is None:
         raise AnalysisError("%s: state budget exceeded" % spec)
     label = {"hash160": "hash160", "sha256": "sha256"}[hashname]
@@ -66,8 +67,7 @@ def _commitment(ctx, spec, attr, hashname, extra_exempt=None):
 
 def _no_utxo_exempt(fn):
     """PSBTIn: when neither prev_tx nor prev_out is known nothing can be compared: exempt the edge on which the scriptPubKey is None"""
-    cfg = cfg_of(fn)
-    return [(n.id, False) for n in cfg.tests() if isinstance(n.ast, ast.Name) and n.ast.id == "script_pubkey"]
+    return [{("truthy self.prev_tx", False), ("truthy self.prev_out", False)}]
 
 
 def c11_1(ctx):
